@@ -42,6 +42,8 @@
 //!                        reach the blocked `wait` in one wake-up or in two — the trap wins either way: 384+SIG, job not
 //!                        waited for)
 //!   tsn SIG N            the same without `( exit 0 )`: signal and SIGCHLD always arrive in ONE wake-up
+//!   tso SIG N O O …      as `ts`, the `wait` having further operands after `$!` (forms of `wj` except by-name): the trap ends the
+//!                        whole built-in (`?` in `await_jobs`): 384+SIG, none of the other operands is awaited or removed
 //!   ti                   `trap '' USR2; kill -s USR2 $$`
 //!   scp N                the same with `nap 300 N | drain` (the first member of a pipeline is stopped and continued)
 //!   sc N                 (first statement only) a foreground `( nap 300; exit N )` stopped and continued by a
@@ -712,6 +714,26 @@ fn render_stmt(t: &str, nasync: &mut usize) -> Option<String> {
                 *nasync
             )
         }
+        ["tso", sig, n, ks @ ..] if SIGNALS.contains(sig) && !ks.is_empty() => {
+            let v: Option<Vec<String>> = ks
+                .iter()
+                .map(|k| match *k {
+                    "u" => Some("99999".to_string()),
+                    "%" => Some("%7".to_string()),
+                    k => k.parse::<u32>().ok().filter(|k| *k >= 1 && *k <= *nasync as u32).map(|k| format!("$j{k}")),
+                })
+                .collect();
+            let v = v?;
+            *nasync += 1;
+            format!(
+                "trap 'echo trap{}' {sig}\n( kill -s {sig} $$; ( exit 0 ); exit {} ) & j{}=$!\nwait $j{} {}",
+                sig.to_lowercase(),
+                num(n)?,
+                *nasync,
+                *nasync,
+                v.join(" ")
+            )
+        }
         ["ti"] => "trap '' USR2; kill -s USR2 $$".to_string(),
         ["gj", k] => format!("( wait $j{} )", k.parse::<usize>().ok().filter(|k| *k >= 1 && *k <= *nasync)?),
         ["wx"] => "wait -x".to_string(),
@@ -1325,7 +1347,19 @@ fn gen_program(r: &mut Rng, thorough: bool) -> String {
                 live += 3;
                 weight.push(3);
                 let sig = *r.pick(&["USR1", "INT", "TERM", "HUP"]);
-                stmts.push(format!("{} {sig} {st}", if r.chance(2, 3) { "ts" } else { "tsn" }));
+                if nasync > 1 && r.chance(1, 3) {
+                    // further operands after the signalling job: jobs still open, waited for already, unknown
+                    let ops: Vec<String> = (0..1 + r.below(2))
+                        .map(|_| match r.below(4) {
+                            0 => "u".to_string(),
+                            1 => "%".to_string(),
+                            _ => (1 + r.below(nasync - 1)).to_string(),
+                        })
+                        .collect();
+                    stmts.push(format!("tso {sig} {st} {}", ops.join(" ")));
+                } else {
+                    stmts.push(format!("{} {sig} {st}", if r.chance(2, 3) { "ts" } else { "tsn" }));
+                }
                 if r.chance(2, 3) {
                     open.pop();
                     live = open.iter().map(|k| weight[*k]).sum();
@@ -1353,7 +1387,9 @@ fn gen_program(r: &mut Rng, thorough: bool) -> String {
     stmts.join("; ")
 }
 
-const FIXED_PROGRAMS: [&str; 52] = [
+const FIXED_PROGRAMS: [&str; 54] = [
+    "bg s3; tso USR1 7 1; wj 2; wj 1; w",
+    "bg s1; wj 1; tso HUP 4 1 u %; wj 2; w",
     "ts USR1 3; wj 1; w",
     "tsn USR1 3; wj 1; w",
     "bg s3; ts TERM 7; wj 2; wj 1; w",
